@@ -82,8 +82,9 @@ func (t *Transformer) transformElements(elements []WirePattern, pkg *types.Packa
 				result = append(result, &KessokuBind{
 					Interface: unwrapPointer(we.Interface),
 					Provider: &KessokuProvide{
-						FuncExpr:  t.funcRefExpr(provider.Func, pkg),
-						SourcePos: we.Pos,
+						FuncExpr:    t.funcRefExpr(provider.Func, pkg),
+						SourcePos:   we.Pos,
+						Synthesized: true,
 					},
 					SourcePos: we.Pos,
 				})
